@@ -90,14 +90,39 @@ Theorem copy_then_equals : forall m, wf_stable m = true ->
       view_try_copy mem (Some (o1, l1)) src = Some mem' /\ length mem' = length mem /\
       let dst' := eval_struct m mem' fuel d ps pinit (SB (Some (o1, l1))) in
       fr_sok dst' = true /\ fr_ssize dst' = Some n /\
-      equals_struct m fuel d (fr_sub dst') (fr_sub src) = true /\
+      (float_free m = true -> equals_struct m fuel d (fr_sub dst') (fr_sub src) = true) /\
       (forall g, observe g (eval_struct m mem' fuel d ps pinit (SB (Some (o1, n)))) =
                  observe g (eval_struct m mem fuel d ps pinit (SB (Some (o2, n))))) /\
       ((o1 = o2 \/ o1 + n <= o2 \/ o2 + l2 <= o1) ->
        let src' := eval_struct m mem' fuel d ps pinit (SB (Some (o2, l2))) in
-       fr_sok src' = true /\ equals_struct m fuel d (fr_sub dst') (fr_sub src') = true).
+       fr_sok src' = true /\
+       (float_free m = true -> equals_struct m fuel d (fr_sub dst') (fr_sub src') = true)).
 Proof. exact Local.copy_then_equals. Qed.
 Print Assumptions copy_then_equals.
+
+(* The hypothesis float_free (no Float field) on the two Equals conclusions is forced: Float fields
+   compare with operator== of the values read, and a NaN does not equal itself.  A structure of the
+   class wf_stable with one Float:32 field holding a quiet NaN is copied successfully (destination Ok,
+   same size, same bytes) and the destination does not Equal the source. *)
+Theorem copy_then_equals_refuted_float_nan :
+  exists m d mem o1 l1 o2 l2 n fuel mem',
+    wf_stable m = true /\ float_free m = false /\ In d m /\
+    0 <= o1 /\ o1 + l1 <= Z.of_nat (length mem) /\ 0 <= o2 /\ o2 + l2 <= Z.of_nat (length mem) /\
+    let src := eval_struct m mem fuel d [] true (SB (Some (o2, l2))) in
+    fr_sok src = true /\ fr_ssize src = Some n /\ n = l2 /\ n <= l1 /\ o2 + l2 <= o1 /\
+    view_try_copy mem (Some (o1, l1)) src = Some mem' /\
+    let dst' := eval_struct m mem' fuel d [] true (SB (Some (o1, l1))) in
+    fr_sok dst' = true /\ fr_ssize dst' = Some n /\
+    firstn (Z.to_nat n) (skipn (Z.to_nat o1) mem') = firstn (Z.to_nat n) (skipn (Z.to_nat o2) mem) /\
+    equals_struct m fuel d (fr_sub dst') (fr_sub src) = false /\
+    equals_struct m fuel d (fr_sub src) (fr_sub src) = false.
+Proof. exact Local.copy_then_equals_refuted_float_nan. Qed.
+Print Assumptions copy_then_equals_refuted_float_nan.
+
+(* Float fields compare by value: +0.0 and -0.0 are Equal although their bytes differ;
+   the comparison is symmetric for every pair of bit patterns. *)
+Theorem float_equals_symmetric : forall kbits a b, float_eqb kbits a b = float_eqb kbits b a.
+Proof. exact float_eqb_sym. Qed.
 
 (* non-vacuity: two Ok views whose padding bytes differ are Equal; changing a covered byte breaks it *)
 Example equals_ignores_padding_instance :
